@@ -9,14 +9,19 @@
 //!   lvl 0..3 = Pull, Read, Write, Manage; cond 0 = None, c+1 = Some(c).
 //!
 //! Result: one answer per (order, repetition), joined by " / ":
-//!   `acc=<bit per op> m<g>{i<id>=<lvl>.<cond>,...} r<g>{...} ...`  (entries sorted).
+//!   `acc=<bit per op> e=<char per op> m<g>{i<id>=<lvl>.<cond>,...} r<g>{...} ...`  (entries sorted).
 //! An operation whose dependency was not accepted on that replica is not processable and is
-//! skipped (bit 0), as is an operation `process` rejects.
+//! skipped (bit 0), as is an operation `process` rejects.  `e=` gives the outcome KIND of every
+//! operation on that replica (variant names only): `.` accepted, `-` skipped (dependency not
+//! accepted), `D` DuplicateOperation, `C` GroupCycle, `M` ManagerGroupsNotAllowed, `I` Inner
+//! (StatesNotFound), `R` Resolver, StateChangeError: `a` AlreadyAdded, `r` AlreadyRemoved,
+//! `s` InsufficientAccess, `n` InactiveActor, `m` InactiveMember, `u` UnrecognisedActor,
+//! `v` UnrecognisedMember.  Replicas of one history must agree on it too.
 use std::collections::HashSet;
 use std::fmt::Debug;
 
 use p2panda_auth::group::resolver::StrongRemove;
-use p2panda_auth::group::{GroupAction, GroupCrdt, GroupMember};
+use p2panda_auth::group::{GroupAction, GroupCrdt, GroupCrdtError, GroupMember, GroupMembershipError};
 use p2panda_auth::traits::{Conditions, Operation};
 use p2panda_auth::{Access, AccessLevel};
 
@@ -176,6 +181,7 @@ fn run_case<C: Codec + Debug>(r: &mut Rd) -> String {
         let order: Vec<usize> = (0..nops).map(|_| r.n() as usize).collect();
         let mut y = GroupCrdt::<char, u32, HOp<C>, C, StrongRemove<char, u32, HOp<C>, C>>::init();
         let mut accepted: HashSet<u32> = HashSet::new();
+        let mut kinds: Vec<char> = vec!['-'; nops];
         for idx in order {
             let op = &ops[idx];
             if !op.deps.iter().all(|d| accepted.contains(d)) {
@@ -185,13 +191,64 @@ fn run_case<C: Codec + Debug>(r: &mut Rd) -> String {
                 Ok(y2) => {
                     y = y2;
                     accepted.insert(op.id);
+                    kinds[idx] = '.';
                 }
-                Err(_) => {}
+                Err(e) => {
+                    kinds[idx] = match e {
+                        GroupCrdtError::Inner(_) => 'I',
+                        GroupCrdtError::DuplicateOperation(..) => 'D',
+                        GroupCrdtError::GroupCycle(..) => 'C',
+                        GroupCrdtError::ManagerGroupsNotAllowed(..) => 'M',
+                        GroupCrdtError::Resolver(..) => 'R',
+                        GroupCrdtError::StateChangeError(_, m) => match m {
+                            GroupMembershipError::AlreadyAdded(..) => 'a',
+                            GroupMembershipError::AlreadyRemoved(..) => 'r',
+                            GroupMembershipError::InsufficientAccess(..) => 's',
+                            GroupMembershipError::InactiveActor(..) => 'n',
+                            GroupMembershipError::InactiveMember(..) => 'm',
+                            GroupMembershipError::UnrecognisedActor(..) => 'u',
+                            GroupMembershipError::UnrecognisedMember(..) => 'v',
+                        },
+                    };
+                }
             }
         }
         let bits: String = ops.iter().map(|o| if accepted.contains(&o.id) { '1' } else { '0' }).collect();
+        let kinds: String = kinds.into_iter().collect();
+        // Safety valve: `members_inner` has no visited set and is bounded only by
+        // MAX_NESTED_DEPTH = 1000; with two nesting cycles through one group a query would take
+        // 2^500 steps.  Bound the number of calls from the direct members of the final state and
+        // answer `DEEP` instead of hanging (the generators keep well below this bound).
+        let edges: Vec<(char, Vec<char>)> = groups
+            .iter()
+            .map(|g| (*g, y.root_members(*g).into_iter().filter(|(m, _)| m.is_group()).map(|(m, _)| m.id()).collect()))
+            .collect();
+        let mut w: Vec<u64> = vec![1; groups.len()];
+        for _ in 0..1000 {
+            let w2: Vec<u64> = edges
+                .iter()
+                .map(|(_, subs)| {
+                    let mut t: u64 = 1;
+                    for h in subs {
+                        let c = groups.iter().position(|x| x == h).map(|p| w[p]).unwrap_or(1);
+                        t = t.saturating_add(c).min(1 << 40);
+                    }
+                    t
+                })
+                .collect();
+            if w2 == w {
+                break;
+            }
+            w = w2;
+        }
+        if w.iter().fold(0u64, |a, b| a.saturating_add(*b)) > 60_000 {
+            for _ in 0..reps {
+                answers.push(format!("acc={} e={} DEEP", bits, kinds));
+            }
+            continue;
+        }
         for _ in 0..reps {
-            let mut s = format!("acc={}", bits);
+            let mut s = format!("acc={} e={}", bits, kinds);
             for g in &groups {
                 let m: Vec<(GroupMember<char>, Access<C>)> =
                     y.members(*g).into_iter().map(|(id, a)| (GroupMember::Individual(id), a)).collect();
